@@ -133,7 +133,26 @@ def toBytes (h : Tcp) : Bytes := (fixed h ++ h.opts.buf).take (headerLen h)
 def writeOut (h : Tcp) : Bytes :=
   fixed h ++ (if h.opts.asSlice.isEmpty then [] else h.opts.asSlice)
 
-/-- `TcpHeader::from_slice` (`TcpHeaderSlice::from_slice`, `to_header`). -/
+/-- `TcpHeaderSlice::to_header` (the accessors read at fixed offsets; the options are
+    `slice[20..data_offset*4]` copied into a zeroed 40 byte buffer). -/
+def toHeader (b : Bytes) : Tcp :=
+  let dataOffset := (bAt b 12 &&& 0b1111_0000) >>> 4
+  let optsSlice := sub b 20 (dataOffset * 4 - 20)
+  { sp := be16 b 0, dp := be16 b 2, seq := be32 b 4, ack := be32 b 8,
+    ns := (bAt b 12 &&& 1) ≠ 0,
+    fin := (bAt b 13 &&& 1) ≠ 0,
+    syn := (bAt b 13 &&& 2) ≠ 0,
+    rst := (bAt b 13 &&& 4) ≠ 0,
+    psh := (bAt b 13 &&& 8) ≠ 0,
+    ackf := (bAt b 13 &&& 16) ≠ 0,
+    urg := (bAt b 13 &&& 32) ≠ 0,
+    ece := (bAt b 13 &&& 64) ≠ 0,
+    cwr := (bAt b 13 &&& 128) ≠ 0,
+    win := be16 b 14, ck := be16 b 16, urgp := be16 b 18,
+    opts := { len := optsSlice.length % 256,
+              buf := optsSlice ++ zeros (40 - optsSlice.length) } }
+
+/-- `TcpHeader::from_slice` (`TcpHeaderSlice::from_slice`, then `to_header`). -/
 def fromSlice (b : Bytes) : Except Err (Tcp × Bytes) :=
   if b.length < 20 then .error (lenErrSlice 20 b.length "TcpHeader")
   else
@@ -141,23 +160,7 @@ def fromSlice (b : Bytes) : Except Err (Tcp × Bytes) :=
     if headerLen < 20 then
       .error (.content s!"DataOffsetTooSmall(data_offset={(headerLen >>> 2) % 256})")
     else if b.length < headerLen then .error (lenErrSlice headerLen b.length "TcpHeader")
-    else
-      let dataOffset := (bAt b 12 &&& 0b1111_0000) >>> 4
-      let optsSlice := sub b 20 (dataOffset * 4 - 20)
-      .ok ({ sp := be16 b 0, dp := be16 b 2, seq := be32 b 4, ack := be32 b 8,
-             ns := (bAt b 12 &&& 1) ≠ 0,
-             fin := (bAt b 13 &&& 1) ≠ 0,
-             syn := (bAt b 13 &&& 2) ≠ 0,
-             rst := (bAt b 13 &&& 4) ≠ 0,
-             psh := (bAt b 13 &&& 8) ≠ 0,
-             ackf := (bAt b 13 &&& 16) ≠ 0,
-             urg := (bAt b 13 &&& 32) ≠ 0,
-             ece := (bAt b 13 &&& 64) ≠ 0,
-             cwr := (bAt b 13 &&& 128) ≠ 0,
-             win := be16 b 14, ck := be16 b 16, urgp := be16 b 18,
-             opts := { len := optsSlice.length % 256,
-                       buf := optsSlice ++ zeros (40 - optsSlice.length) } },
-           b.drop headerLen)
+    else .ok (toHeader b, b.drop headerLen)
 
 def sampleMax : Tcp :=
   { sp := 65535, dp := 65535, seq := 4294967295, ack := 4294967295,
